@@ -22,7 +22,7 @@ RULE = ('histories of 1-10 steps: unit environments opened with valid units (dic
 SHARDS = {'quick': 16, 'thorough': 16}
 MIN_NONTRIVIAL = {'quick': 600, 'thorough': 15000}
 REQUIRED_CLASSES = ['scope-valid', 'scope-nested', 'scope-repeated', 'scope-body-raises', 'fail:duplicate-standard', 'fail:duplicate-outer',
-                    'fail:prefixed-clash', 'fail:malformed', 'fail-after-successes', 'form:dict', 'form:quantity', 'form:prefixes',
+                    'fail:prefixed-clash', 'fail:malformed', 'fail:malformed-entry-with-new-conversion-type', 'fail-after-successes', 'form:dict', 'form:quantity', 'form:prefixes',
                     'form:custom-type', 'dip:valid', 'dip:clash-second-unit', 'dip:unrelated-error', 'dip:expression', 'dip:add_unit',
                     'dip:nested-in-scope']
 REQUIRED_MONITORS = ['scope_events', 'scope_end_digest_compares', 'failed_open_digest_compares', 'parse_digest_compares',
@@ -43,6 +43,10 @@ def setup():
     log = []
 
     class CustomUnitType(UnitType):
+        def _istype(self):
+            return False
+
+    class CustomUnitType2(UnitType):
         def _istype(self):
             return False
 
@@ -81,7 +85,7 @@ def setup():
     UE.UnitEnvironment.__init__ = init
     UE.UnitEnvironment.close = close_
     DIP.parse = parse
-    return dict(UE=UE.UnitEnvironment, Q=Quantity, DIP=DIP, log=log, CT=CustomUnitType, hyg=tables.Hygiene(), keep=[])
+    return dict(UE=UE.UnitEnvironment, Q=Quantity, DIP=DIP, log=log, CT=CustomUnitType, CT2=CustomUnitType2, hyg=tables.Hygiene(), keep=[])
 
 
 # ------------------------------------------------------------------ generation
@@ -97,7 +101,7 @@ def gen_units(rng, names, fail=None):
         pos = min(pos, len(out))
         bad = {'duplicate-standard': dict(sym=rng.choice(['m', 'kg', 'J', 'erg', '[c]', 'Pa']), form='dict', mag=1.0, pre=None),
                'prefixed-clash': dict(sym=rng.choice(['am', 'kPa', 'mm', 'GeV']), form='dict', mag=1.0, pre=None),
-               'malformed': dict(sym='bad', form=rng.choice(['no-dimensions', 'no-magnitude']), mag=1.0, pre=None),
+               'malformed': dict(sym='bad', form=rng.choice(['no-dimensions', 'no-magnitude', 'custom-type-no-dimensions', 'custom-type-no-magnitude']), mag=1.0, pre=None),
                'duplicate-outer': dict(sym='__outer__', form='dict', mag=1.0, pre=None)}[kind]
         out.insert(pos, bad)
     return out
@@ -181,6 +185,10 @@ def unit_dict(ctx, u):
         return {'magnitude': u['mag']}
     if u['form'] == 'no-magnitude':
         return {'dimensions': L}
+    if u['form'] == 'custom-type-no-dimensions':      # the malformed entry itself introduces a new conversion type
+        return {'magnitude': u['mag'], 'definition': ctx['CT2']}
+    if u['form'] == 'custom-type-no-magnitude':
+        return {'dimensions': L, 'definition': ctx['CT2']}
     d = {'magnitude': u['mag'], 'dimensions': list(L)}
     if u['form'] == 'prefixes':
         d['prefixes'] = list(u['pre'])
@@ -242,6 +250,8 @@ def run_scope(sc, ctx, st, active):
         st['classes'].add('fail:' + sc['fail'][0])
         if sc['fail'][1] > 0:
             st['classes'].add('fail-after-successes')
+        if any(u['form'].startswith('custom-type-no') for u in sc['units']):
+            st['classes'].add('fail:malformed-entry-with-new-conversion-type')
         st['nontrivial'] = True
     if active:
         st['nontrivial'] = True
